@@ -29,7 +29,7 @@ type Spec struct {
 	Down     int    `json:"down"`      // target->client payload bytes
 	Chunk    int    `json:"chunk"`     // client chunk size
 	Seg      int    `json:"seg"`       // TCP segment size of the client's writes (0 = one write)
-	Order    int    `json:"order"`     // 0 client half-closes first; 1 target speaks and half-closes first; 2 both at once
+	Order    int    `json:"order"`     // 0 client half-closes first; 1 target speaks and half-closes first; 2 both at once; 3 target answers and goes away while the client keeps uploading and reads only at the end
 	TCPBuf   int    `json:"tcpbuf"`
 	IdleS    int    `json:"idle_s"` // seconds both sides stay silent after the handshake before data flows
 }
@@ -92,6 +92,14 @@ func build(s Spec) *engine.Scenario {
 					o.targetEOF = true
 				}
 				c.Close()
+			case 3:
+				// answer as soon as the first byte has arrived, then go away for good
+				one := make([]byte, 1)
+				if n, _ := c.Read(one); n == 1 {
+					t.Got[i] = append(t.Got[i], one[0])
+				}
+				c.Write(down)
+				c.Close()
 			default:
 				done := vrt.Spawn("target-writer", func() { c.Write(down); c.CloseWrite() })
 				if t.ReadAll(i, c) == nil {
@@ -130,7 +138,15 @@ func build(s Spec) *engine.Scenario {
 			rest = rest[n:]
 		}
 		wire := world.EncodeStream(key, 1, chunks...)
+		if s.Order == 3 {
+			// kernel send buffers: what the proxy has written to a client that is not reading sits in
+			// the proxy's send queue (and is lost if that connection is reset)
+			vw.TCPSndBuf = 1 << 20
+		}
 		cl := world.Dial("203.0.113.7:0")
+		if s.Order == 3 {
+			cl.C.SetReadBuffer(256)
+		}
 		switch s.Order {
 		case 0, 2:
 			rd := vrt.Spawn("client-reader", func() { cl.ReadAll() })
@@ -145,6 +161,18 @@ func build(s Spec) *engine.Scenario {
 			}
 			cl.C.CloseWrite()
 			vrt.Join(rd)
+		case 3:
+			// the upload goes on in three parts with pauses while the target has long gone; the client
+			// reads the answer only after it has finished uploading
+			third := len(wire) / 3
+			cl.Send(wire[:third], s.Seg)
+			vrt.Sleep(time.Second)
+			cl.Send(wire[third:2*third], s.Seg)
+			vrt.Sleep(time.Second)
+			cl.Send(wire[2*third:], s.Seg)
+			vrt.Sleep(time.Second)
+			cl.C.CloseWrite()
+			cl.ReadAll()
 		case 1:
 			// handshake first so that the proxy connects; the target then speaks and half-closes;
 			// only after the client has seen EOF does it send its payload.
@@ -195,13 +223,18 @@ func build(s Spec) *engine.Scenario {
 			fs = append(fs, &engine.Finding{Sig: sig, Msg: fmt.Sprintf(format, a...) + " spec=" + s.String()})
 		}
 		if len(fs) == 0 {
-			if !bytes.Equal(o.targetGot, up) {
+			if s.Order == 3 {
+				// the target left after the first byte: nothing is promised about the upload
+				if !bytes.Equal(o.clientGot, down) {
+					add("down-stream-corrupt", "the target answered and went away while the client was still uploading: client decrypted %d bytes, target sent %d (first difference at %d) decodeErr=%q clientErr=%q", len(o.clientGot), len(down), firstDiff(o.clientGot, down), o.decodeErr, o.clientErr)
+				}
+			} else if !bytes.Equal(o.targetGot, up) {
 				add("up-stream-corrupt", "target received %d bytes, client sent %d (first difference at %d)", len(o.targetGot), len(up), firstDiff(o.targetGot, up))
 			}
-			if !o.targetEOF {
+			if !o.targetEOF && s.Order != 3 {
 				add("up-eof-missing", "target never saw end-of-stream after the client's half-close")
 			}
-			if !bytes.Equal(o.clientGot, down) {
+			if s.Order != 3 && !bytes.Equal(o.clientGot, down) {
 				add("down-stream-corrupt", "client decrypted %d bytes, target sent %d (first difference at %d) decodeErr=%q clientErr=%q", len(o.clientGot), len(down), firstDiff(o.clientGot, down), o.decodeErr, o.clientErr)
 			}
 			if o.nconns != 1 {
@@ -267,6 +300,12 @@ func gridE(tier string) []Spec {
 			}
 		}
 	}
+	// the target answers and goes away while the client keeps uploading (and reads late)
+	for cipher := 0; cipher < 4; cipher++ {
+		for _, down := range []int{1, 200, 2000, 16384} {
+			out = append(out, Spec{Cipher: cipher, AddrType: cipher % 3, Coalesce: cipher % 2, Up: 3000, Down: down, Chunk: 500, Order: 3})
+		}
+	}
 	// connections that outlive the handshake timeout (59 s) by far: silence, then data both ways
 	for cipher := 0; cipher < 4; cipher++ {
 		for _, idle := range []int{58, 60, 3600} {
@@ -283,6 +322,7 @@ func gridS() []Spec {
 			out = append(out, Spec{Cipher: order % 4, AddrType: (order + co) % 3, Coalesce: co, Up: 300, Down: 200, Chunk: 200, Seg: 0, Order: order, TCPBuf: 256})
 		}
 	}
+	out = append(out, Spec{Cipher: 1, AddrType: 0, Coalesce: 0, Up: 600, Down: 1000, Chunk: 100, Order: 3})
 	return out
 }
 
